@@ -254,6 +254,17 @@ func (g *genCtx) genEntries(n int, existing []string) ([]*tar.Header, []string) 
 			} else {
 				h.Linkname = r.pick([]string{"a", "../dest2/f", "../secret", "/w/secret", "..", "a/../../dest2/f", "b", "../dest/a", "/a"})
 			}
+			if g.hostile && r.chance(1, 6) {
+				// an absolute link name that climbs: the same name as an earlier entry or an existing file, spelled so
+				// that it leaves the destination unless ".." is resolved before the join
+				t := "a"
+				if len(names) > 0 && r.chance(1, 2) {
+					t = names[r.intn(len(names))]
+				} else if len(existing) > 0 {
+					t = existing[r.intn(len(existing))]
+				}
+				h.Linkname = r.pick([]string{"/../", "//..//", "/x/../../", "/../../"}) + strings.TrimLeft(t, "/")
+			}
 			if g.layer && len(stagedNames) > 0 && r.chance(1, 2) {
 				h.Linkname = ".wh..wh.plnk/" + stagedNames[r.intn(len(stagedNames))]
 			}
@@ -391,6 +402,10 @@ func genFsCase(r *Rng, family string) *FsCase {
 	}
 	g.layer = strings.HasPrefix(op, "layer")
 	c := &FsCase{Op: op, Umask: 0o022}
+	if r.chance(1, 3) {
+		// the umask of the moment of the call, not the one the process started with
+		c.Umask = []int{0o077, 0o027, 0, 0o002, 0o177}[r.intn(5)]
+	}
 	mt := int64(2000000)
 	dest := "/w/dest"
 	root := ""
